@@ -125,8 +125,24 @@ class Protocol:
 
         return mk(shape, "")
 
+    def call_quiet(self, st, recv, name, vals):
+        """The value a call would return, without logging it in the ghost call trace or bumping versions."""
+        m = self.methods[name]
+        vals = {**m.defaults, **vals}
+        terms = []
+        for p in m.params:
+            terms.extend(encode_arg(st, vals[p]))
+        r = self.uf_value(st, name, recv, terms, m.result, self.version(st, recv))
+        if m.ensures is not None and not getattr(m, "ensures_on_call_only", False):
+            for f in m.ensures(st, recv, vals, r) or ():
+                st.assume(f)
+        st.ghost.setdefault("uf_calls", []).append((str(recv.e), name, dict(vals), r))
+        return r
+
     def getattr(self, ip, st, obj, name):
         if name in self.methods:
+            if self.has.get(name) == "uf" and not st.branch(self.hasattr(ip, st, obj, name)):
+                raise PyRaise(SExc(AttributeError, (f"opaque {self.kind} has no attribute {name}",), site="protocol"))
             return OpaqueCall(obj, name, self)
         if name in self.attrs:
             return self.uf_value(st, "." + name, obj, [], self.attrs[name], self.version(st, obj))
